@@ -104,6 +104,56 @@ def run(ctx, b, broken):
             prev = (k, t)
         if len(ctx.samples) < 4:
             ctx.sample({"family": name, "k": ks[-1], "text": fam(ks[0])[name][:120]})
+    # CPU-time families: work that the token-read counter does not see (directive handling in the lexer, AST transforms,
+    # list building) - each family is parsed at size k and 2k in ONE subprocess; doubling the size must not much more than
+    # double the CPU time (measured twice each, repeated when over the limit, so a loaded machine is not an alarm)
+    def timed(k):
+        return {
+            "linemarkers": "".join(f'# {i + 1} "f{i}.h"\nint v{i};\n' for i in range(k)),
+            "line-directives": "".join(f"#line {i + 1}\nint w{i};\n" for i in range(k)),
+            "pragmas": "".join(f"#pragma p{i} x y\nint q{i};\n" for i in range(k)),
+            "big-switch": "void f(int x){ switch (x) { " + " ".join(f"case {i}: a = {i}; b = {i}; break;" for i in range(k)) + " default: ; } }",
+            "switch-label-runs": "void f(int x){ switch (x) { " + " ".join(f"case {2 * i}: case {2 * i + 1}: a = {i};" for i in range(k)) + " } }",
+            "big-struct": "struct S { " + " ".join(f"int m{i}; char c{i} : 3;" for i in range(k)) + " };",
+            "big-enum": "enum E { " + ", ".join(f"K{i} = {i}" for i in range(2 * k)) + " };",
+            "big-initlist": "int a[] = { " + ", ".join(f"[{i}] = {i}" for i in range(2 * k)) + " };",
+            "big-block": "void f(void){ " + " ".join(f"int l{i} = {i}; l{i}++;" for i in range(k)) + " }",
+            "string-concat": "char *s = " + " ".join(f'"s{i}"' for i in range(4 * k)) + ";",
+            "wstring-concat": "int *s = " + " ".join(f'L"w{i}"' for i in range(4 * k)) + ";",
+            "many-functions": " ".join(f"int f{i}(int a, char *b){{ return a + {i}; }}" for i in range(k)),
+            "typedef-uses": "typedef int T; " + " ".join(f"T t{i}; T *p{i};" for i in range(k)),
+            "call-args": "void f(void){ g(" + ", ".join(f"a{i}" for i in range(4 * k)) + "); }",
+            "else-if-chain": "void f(int x){ " + " ".join(f"if (x == {i}) a = {i}; else" for i in range(k // 4)) + " a = 0; }",
+        }
+    import subprocess, sys as _sys
+
+    def cpu_times(texts):
+        p = subprocess.run([_sys.executable, os.path.join(os.path.dirname(os.path.dirname(os.path.abspath(__file__))), "parsetime.py")],
+                           input=json.dumps(texts), capture_output=True, text=True, timeout=1200, env=dict(os.environ, PYTHONHASHSEED="0"))
+        return json.loads(p.stdout) if p.returncode == 0 else [-1.0] * len(texts)
+    K = 1200 if ctx.tier == "quick" else 3000
+    MULT = {"linemarkers": 8, "line-directives": 10, "pragmas": 10, "big-switch": 3, "switch-label-runs": 4, "big-struct": 4, "big-enum": 6, "big-initlist": 4,
+            "big-block": 4, "string-concat": 15, "wstring-concat": 15, "many-functions": 2, "typedef-uses": 4, "call-args": 5, "else-if-chain": 1}
+    names = list(timed(4))
+    small = {n_: timed(K * MULT[n_])[n_] for n_ in names}
+    large = {n_: timed(2 * K * MULT[n_])[n_] for n_ in names}
+    ts = cpu_times([small[n_] for n_ in names] + [large[n_] for n_ in names])
+    for i, name in enumerate(names):
+        a, b_ = ts[i], ts[i + len(names)]
+        ctx.evaluations += 1
+        ctx.count("timed-family:" + name, int(1000 * max(b_, 0)))
+        ctx.nontriv(("timed", name))
+        if a < 0 or b_ < 0:
+            su.violation(small[name][:300], f"timed family {name} is not accepted")
+            continue
+        ratio = b_ / max(a, 0.02)
+        if ratio > 3.0 and b_ > 0.3:
+            for _ in range(3):
+                a2, b2 = cpu_times([small[name], large[name]])
+                if a2 > 0 and b2 > 0:
+                    ratio = min(ratio, b2 / max(a2, 0.02))
+        if ratio > 3.0 and b_ > 0.3:
+            su.violation(large[name][:300] + " ...", f"family {name}: CPU time grows from {a:.2f}s (k={K * MULT[name]}) to {b_:.2f}s (k={2 * K * MULT[name]}), ratio {ratio:.1f}: more than doubling (limit 3.0)", {"family": name, "k": K})
     # lexer regex families (wall clock, wide margin)
     from lexcorr import impl_lex
     def lits_of(n):
